@@ -151,6 +151,7 @@ func (tg *TCPGroup) worker() {
 			tg.acceptCh <- c
 		})
 		if err != nil {
+			c.Close()
 			return
 		}
 	}
